@@ -82,6 +82,19 @@ impl Expr {
             Mul(a, b) => a.eval(lv, nv, pis) * b.eval(lv, nv, pis),
         }
     }
+    /// the same expression as a circuit over extension targets (recursive verifier, C11)
+    pub fn eval_circuit(&self, b: &mut CircuitBuilder<F, D>, lv: &[ExtensionTarget<D>], nv: &[ExtensionTarget<D>],
+                        pis: &[ExtensionTarget<D>]) -> ExtensionTarget<D> {
+        match self {
+            Const(c) => b.constant_extension(FE::from(F::from_canonical_u64(*c))),
+            Local(i) => lv[*i],
+            Next(i) => nv[*i],
+            Pub(i) => pis[*i],
+            Add(x, y) => { let (u, v) = (x.eval_circuit(b, lv, nv, pis), y.eval_circuit(b, lv, nv, pis)); b.add_extension(u, v) }
+            Sub(x, y) => { let (u, v) = (x.eval_circuit(b, lv, nv, pis), y.eval_circuit(b, lv, nv, pis)); b.sub_extension(u, v) }
+            Mul(x, y) => { let (u, v) = (x.eval_circuit(b, lv, nv, pis), y.eval_circuit(b, lv, nv, pis)); b.mul_extension(u, v) }
+        }
+    }
     /// degree in the trace columns
     pub fn degree(&self) -> usize {
         match self {
@@ -236,11 +249,22 @@ impl<const N: usize, const PI: usize> Stark<F, D> for Fam<N, PI> {
 
     fn eval_ext_circuit(
         &self,
-        _builder: &mut CircuitBuilder<F, D>,
-        _vars: &Self::EvaluationFrameTarget,
-        _yield_constr: &mut RecursiveConstraintConsumer<F, D>,
+        builder: &mut CircuitBuilder<F, D>,
+        vars: &Self::EvaluationFrameTarget,
+        yield_constr: &mut RecursiveConstraintConsumer<F, D>,
     ) {
-        unimplemented!("the recursive verifier is not part of C09/C10")
+        let lv = vars.get_local_values();
+        let nv = vars.get_next_values();
+        let pis = vars.get_public_inputs();
+        for c in &self.spec.cons {
+            let v = c.expr.eval_circuit(builder, lv, nv, pis);
+            match c.kind {
+                Kind::First => yield_constr.constraint_first_row(builder, v),
+                Kind::Last => yield_constr.constraint_last_row(builder, v),
+                Kind::Transition => yield_constr.constraint_transition(builder, v),
+                Kind::Always => yield_constr.constraint(builder, v),
+            }
+        }
     }
 
     fn constraint_degree(&self) -> usize { self.spec.degree }
@@ -354,6 +378,24 @@ macro_rules! dispatch {
             other => panic!("no instantiation for (columns, public inputs) = {:?}", other),
         }
     };
+}
+
+/// Generic access to the const-generic family from other modules (C11 builds recursive verifiers).
+pub trait FamVisitor {
+    type Out;
+    fn visit<const N: usize, const PI: usize>(self, stark: Fam<N, PI>) -> Self::Out;
+}
+macro_rules! visit_dispatch {
+    ($spec:expr, $v:expr; $(($n:literal, $p:literal)),*) => {
+        match ($spec.ncols, $spec.npi) {
+            $(($n, $p) => $v.visit(Fam::<$n, $p> { spec: $spec }),)*
+            other => panic!("no instantiation for (columns, public inputs) = {:?}", other),
+        }
+    };
+}
+pub fn visit_fam<V: FamVisitor>(spec: Arc<FamSpec>, v: V) -> V::Out {
+    visit_dispatch!(spec, v; (1, 0), (1, 1), (2, 0), (2, 1), (2, 3), (3, 0), (3, 1), (3, 3), (4, 0), (4, 2),
+                    (5, 1), (6, 0), (6, 2), (7, 1), (8, 0), (8, 3))
 }
 
 /// the (columns, public inputs) pairs that are instantiated
